@@ -38,6 +38,8 @@ def configs(tier):
                         c.update(explore=True)
                     if fl == 'hllc' and clause != 'consistency':
                         c.update(timeout_ms=30000 if tier == 'quick' else 300000, budget_s=600 if tier == 'quick' else 7200)
+                    if tier == 'quick' and fl in ('hlle', 'hllc') and clause != 'consistency':
+                        c['sweep_timeout_ms'] = 1200
                     if model == 'euler2d':
                         for dirn in ([1, 0], [0, 1]):
                             out.append(dict(c, dir=dirn))
